@@ -72,7 +72,11 @@ def run(ctx):
     def make_input(i, centre, base, shared, rel=0.02):
         kind = rng.choice(["mc", "mc", "mc", "cov"])
         if kind == "cov":
-            o = pe.cov_Obs(centre, (rel * abs(centre) + 0.01) ** 2, "cv%dx%d" % (i, next(uniq)))
+            # a mean that is a whole number is passed as an integer literal every other time: cov_Obs(2, ...) is still a real observable
+            c_arg = int(centre) if float(centre).is_integer() and centre != 0 and rng.random() < 0.5 else centre
+            if isinstance(c_arg, int):
+                ctx.count("input given as cov_Obs(<int>, ..)")
+            o = pe.cov_Obs(c_arg, (rel * abs(centre) + 0.01) ** 2, "cv%dx%d" % (i, next(uniq)))
             return o
         if centre == 0.0:
             lay = base if shared else obsutil.gen_layout(rng, nmin=8, nmax=24, max_ens=2, ens_names=["R%dx%d" % (i, next(uniq)), "S%dx%d" % (i, next(uniq))])
